@@ -46,6 +46,7 @@ SCEN = {
     'PushS': lambda inv=(): sc('MC_PushS', 4, 5, inv),
     'PushC': lambda inv=(): sc('MC_PushC', 5, 6, inv),
     'FrameS': lambda inv=(): sc('MC_FrameS', 4, 5, inv),
+    'StallS': lambda inv=(): sc('MC_StallS', 6, 7, inv),
     'BigC': lambda inv=(): sc('MC_BigC', 4, 5, inv),
     'BigS': lambda inv=(): sc('MC_BigS', 4, 5, inv),
     'RawS': lambda inv=(): sc('MC_RawS', 3, 4, inv),
@@ -69,7 +70,7 @@ PROPS = {
             'lens': [(['q.lw', 'z.ow', 'z.streams.ow'], ANY), (['r', 'o'], S('call:data')), (['r', 'e'], S('frame:WU'))]},
     'C04': {'scenarios': scen('FlowS CloseS PushC', ['P_C04_InboundDataExactlyAtWindow', 'P_C04_RemoteWindowIsAdvertised']),
             'lens': [(['q.rw', 'z.iw', 'z.streams.iw'], ANY), (['r', 'o', 'e'], S('frame:DATA', 'call:inc', 'call:ack'))]},
-    'C05': {'scenarios': scen('FlowS', ['P_C05_AutoUpdateWithinBounds']),
+    'C05': {'scenarios': scen('FlowS StallS', ['P_C05_AutoUpdateWithinBounds', 'P_C05_NoStall']),
             'lens': [(['r', 'o', 'q.rw', 'z.iw', 'z.streams.iw'], S('call:ack')), (['q.rw', 'z.iw', 'z.streams.iw'], S('frame:DATA', 'frame:SET'))]},
     'C06': {'scenarios': scen('LifeS LifeC', GENERIC + ['P_C06_StreamStatesAreRfcStates']),
             'lens': [(['r', 'o', 'e'] + STATE_FSM, ANY)]},
